@@ -52,7 +52,7 @@ def offsets(s, sb, dense, rng):
 
 
 def run(tier):
-    run = vlib.Run(PROP, tier)
+    run = vlib.Run(PROP, tier, level="fault_enumeration")
     thorough = tier == "thorough"
     rng = random.Random(vlib.seed())
     model(run, thorough)
